@@ -180,6 +180,7 @@ let leaf_hash_of_script : (bytes * string) list ref = ref []
 let runs : (string, (bytes list * bytes * bool) option) Hashtbl.t = Hashtbl.create 64
 
 (* ------------------------------------------------------------------ statistics *)
+let c03_hook : (case -> string -> string -> string -> bytes list -> bytes -> bool -> unit) ref = ref (fun _ _ _ _ _ _ _ -> ())
 let stats_ok = ref 0 and stats_bad = ref 0 and stats_err = ref 0 and stats_panic = ref 0
 let model_eq = ref 0 and model_diff = ref 0
 let c02_checked = ref 0 and c02_bad = ref 0
@@ -258,7 +259,7 @@ let handle_run (c : case) (toks : string list) =
      | Some (wit, ssig, tapok) ->
        let ok = verify_spend e (fun _ _ -> tapok) c.spk ssig wit in
        bump (c.kind ^ "/" ^ mode ^ "/ok");
-       if ok then incr stats_ok
+       if ok then (incr stats_ok; !c03_hook c mode km pm wit ssig tapok)
        else begin
          incr stats_bad;
          Printf.printf "BAD C01 case=%s kind=%s mode=%s keymask=%s premask=%s lock=%d seq=%d desc=%s wit=%s ssig=%s tapok=%b\n"
@@ -303,6 +304,69 @@ let handle_run (c : case) (toks : string list) =
     end
   | _ -> failwith "bad RUN line"
 
+
+
+(* ------------------------------------------------------------------ C03: third-party malleability search *)
+let c03_checked = ref 0 and c03_bad = ref 0 and c03_candidates = ref 0
+let c03_budget = 4000
+let lcg = ref 12345
+let rnd n = lcg := (!lcg * 1103515245 + 12345) land 0x3fffffff; (!lcg lsr 8) mod n
+
+let c03_search (c : case) (mode : string) km pm (wit : bytes list) (ssig : bytes) (tapok : bool) =
+  (* only witness-script outputs: the script input items are wit minus the script (wsh, shwsh) *)
+  if (c.kind = "wsh" || c.kind = "shwsh") && c.sane && mode = "nonmall" then begin
+    match List.rev wit with
+    | sc :: items_rev ->
+      let items = List.rev items_rev in
+      let n = List.length items in
+      if n <= 6 then begin
+        incr c03_checked;
+        let e = mk_env c in
+        let zeros = List.init 32 (fun _ -> byte_tab.(0)) in
+        let pre_all = List.filter_map (fun (j, p) -> if j < List.length !pres - 1 then Some p.pre else None) !pres in
+        let keys_all = List.map (fun (_, k) -> k.full) !keys in
+        let junk = [byte_tab.(0xde); byte_tab.(0xad)] in
+        let alpha = List.sort_uniq compare (items @ [[]; [byte_tab.(1)]; zeros; junk] @ pre_all @ keys_all) in
+        let alpha = Array.of_list alpha in
+        let a = Array.length alpha in
+        let try_cand (cand : bytes list) =
+          incr c03_candidates;
+          if cand <> items && verify_spend e (fun _ _ -> tapok) c.spk ssig (cand @ [sc]) then begin
+            incr c03_bad;
+            Printf.printf "BAD C03 case=%s kind=%s keymask=%s premask=%s lock=%d seq=%d desc=%s original=%s alternative=%s\n"
+              c.id c.kind km pm c.lock c.seq c.desc (hexs items) (hexs cand);
+            true
+          end else false in
+        (* exhaustive for short lengths while the budget allows, then random *)
+        let found = ref false in
+        let budget = ref c03_budget in
+        let rec enum len prefix =
+          if !found || !budget <= 0 then ()
+          else if len = 0 then (decr budget; if try_cand (List.rev prefix) then found := true)
+          else Array.iter (fun x -> enum (len - 1) (x :: prefix)) alpha in
+        let pow b e = let r = ref 1 in for _ = 1 to e do r := !r * b done; !r in
+        for len = 0 to n + 1 do
+          if not !found then begin
+            if pow a len <= !budget then enum len []
+            else begin
+              (* random candidates, biased to single-position edits of the original *)
+              let tries = min !budget 600 in
+              for _ = 1 to tries do
+                if not !found then begin
+                  decr budget;
+                  let cand =
+                    if len = n && rnd 2 = 0 then
+                      let pos = rnd (max n 1) in List.mapi (fun i x -> if i = pos then alpha.(rnd a) else x) items
+                    else List.init len (fun _ -> alpha.(rnd a)) in
+                  if try_cand cand then found := true
+                end
+              done
+            end
+          end
+        done
+      end
+    | [] -> ()
+  end
 
 (* ------------------------------------------------------------------ plans (C17) *)
 let c17_checked = ref 0 and c17_bad = ref 0 and c17_lockprobes = ref 0
@@ -387,6 +451,7 @@ let handle_plan (c : case) (toks : string list) =
   | _ -> failwith "bad PLAN line"
 
 let () =
+  if Array.length Sys.argv > 1 && Sys.argv.(1) = "--c03" then c03_hook := c03_search;
   let cur = ref None in
   let ncases = ref 0 in
   let upd f = match !cur with Some c -> f c | None -> () in
@@ -428,6 +493,6 @@ let () =
        | _ -> ()
      done
    with End_of_file -> ());
-  Printf.printf "SUMMARY cases=%d ok=%d bad=%d err=%d panic=%d model_eq=%d model_diff=%d c02_checked=%d c02_bad=%d c17_checked=%d c17_bad=%d c17_lockprobes=%d\n"
-    !ncases !stats_ok !stats_bad !stats_err !stats_panic !model_eq !model_diff !c02_checked !c02_bad !c17_checked !c17_bad !c17_lockprobes;
+  Printf.printf "SUMMARY cases=%d ok=%d bad=%d err=%d panic=%d model_eq=%d model_diff=%d c02_checked=%d c02_bad=%d c17_checked=%d c17_bad=%d c17_lockprobes=%d c03_checked=%d c03_bad=%d c03_candidates=%d\n"
+    !ncases !stats_ok !stats_bad !stats_err !stats_panic !model_eq !model_diff !c02_checked !c02_bad !c17_checked !c17_bad !c17_lockprobes !c03_checked !c03_bad !c03_candidates;
   Hashtbl.iter (fun k v -> Printf.printf "HIST %s %d\n" k v) hist
